@@ -29,13 +29,14 @@ Definition dec_to_sync (d : adecision) : decision := (fst d, to_sync (snd d)).
 
 Definition handler_rel (sh : shape) (op : N) (af : ahandler_fn) (f : handler_fn) : Prop :=
   forall cfg h ctx r fr wcap,
+    names_answered sh = true ->
     async_expressible fr = true -> (op = 16 -> (sh_write_gate sh && big_write r) = false) ->
     dec_to_sync (af cfg h ctx r fr wcap) = f cfg h ctx r fr wcap.
 
 (* the fall-back arms: the async dispatch calls the very same sync handler *)
 Lemma rel_fallback sh op f : handler_rel sh op (fallback f) f.
 Proof.
-  intros cfg h ctx r fr wcap _ _. unfold fallback, dec_to_sync.
+  intros cfg h ctx r fr wcap _ _ _. unfold fallback, dec_to_sync.
   destruct (f cfg h ctx r fr wcap) as [cs a]. reflexivity.
 Qed.
 
@@ -45,12 +46,13 @@ Ltac break_match :=
   end.
 
 Ltac solve_rel :=
-  intros cfg h ctx r fr wcap Hx Hw;
+  intros cfg h ctx r fr wcap Hn Hx Hw;
+  unfold names_answered in Hn; apply andb_true_iff in Hn; destruct Hn as [Hn1 Hn2]; try rewrite Hn1; try rewrite Hn2;
   cbv beta delta [awith_obj awith_name with_obj with_name aunit_reply unit_reply aattr_reply attr_reply
                   entry_reply dec_to_sync];
   repeat break_match; subst; cbn [fst snd to_sync]; try reflexivity; try discriminate.
 
-Lemma rel_lookup sh : handler_rel sh 1 ah_lookup (h_lookup 1).
+Lemma rel_lookup sh : handler_rel sh 1 (ah_lookup sh) (h_lookup 1).
 Proof. unfold ah_lookup, h_lookup. solve_rel. Qed.
 
 Lemma rel_getattr sh : handler_rel sh 3 ah_getattr (h_getattr 3).
@@ -76,7 +78,7 @@ Proof. unfold ah_read, h_read. solve_rel. Qed.
 Lemma rel_write sh : handler_rel sh 16 (ah_write sh) (h_write 16).
 Proof.
   unfold ah_write, h_write.
-  intros cfg h ctx r fr wcap Hx Hw. specialize (Hw eq_refl). unfold big_write in Hw.
+  intros cfg h ctx r fr wcap _ Hx Hw. specialize (Hw eq_refl). unfold big_write in Hw.
   cbv beta delta [awith_obj with_obj dec_to_sync].
   destruct (read_obj 40 r) as [[s r']|]; [|reflexivity].
   rewrite Hw. destruct fr; reflexivity.
@@ -88,7 +90,7 @@ Proof. unfold ah_fsync, h_fsync. solve_rel. Qed.
 Lemma rel_fsyncdir sh : handler_rel sh 30 ah_fsyncdir (h_fsyncdir 30).
 Proof. unfold ah_fsyncdir, h_fsyncdir. solve_rel. Qed.
 
-Lemma rel_create sh : handler_rel sh 35 ah_create (h_create 35).
+Lemma rel_create sh : handler_rel sh 35 (ah_create sh) (h_create 35).
 Proof. unfold ah_create, h_create, CREATE_ATTR_FLAGS. solve_rel. no_passthrough. reflexivity. Qed.
 
 Lemma rel_fallocate sh : handler_rel sh 43 ah_fallocate (h_fallocate 43).
@@ -127,10 +129,10 @@ Qed.
 
 (* the dispatch step: same calls, corresponding action, for every opcode (known or not) *)
 Lemma async_handler_rel sh cfg h ctx r fr wcap :
-  async_expressible fr = true -> (h_opcode h = 16 -> (sh_write_gate sh && big_write r) = false) ->
+  names_answered sh = true -> async_expressible fr = true -> (h_opcode h = 16 -> (sh_write_gate sh && big_write r) = false) ->
   dec_to_sync (async_handler sh cfg h ctx r fr wcap) = handler cfg h ctx r fr wcap.
 Proof.
-  intros Hx Hw. unfold async_handler, handler.
+  intros Hn Hx Hw. unfold async_handler, handler.
   pose proof (find_rel sh _ _ (table_rel sh) (h_opcode h)) as F. unfold found_rel in F.
   destruct (find_ahandler (h_opcode h) (async_handlers sh)) as [af|];
   destruct (find_handler (h_opcode h) handlers) as [f|]; try contradiction.
